@@ -36,6 +36,8 @@ class ClassSpec:
         self.prop_attrs = {}      # (iface, prop) -> attribute name
         self.split_iface = None   # a base-class interface partly implemented here
         self.mixin = False        # a plain Python mix-in class precedes the DBus base class
+        self.abstract_props = False   # the DBusProperty attributes live on an abstract class in between
+        self.abs_klass = None
 
     def all_ifaces(self):
         out = list(self.ifaces)
@@ -193,11 +195,18 @@ def build_class(cs, hook, tx_ifaces, extra_attrs=None):
         if m.binding == 'deco':
             fn = t_objects.dbusMethod(iname, mn)(fn)
         ns[fname] = fn
+    pns = {}
     for d in cs.ifaces:
         for pn, ps, acc, em in d.props:
             attr = 'p_%s_%s' % (d.name.split('.')[-1], pn)
             cs.prop_attrs[(d.name, pn)] = attr
-            ns[attr] = t_objects.DBusProperty(pn, d.name)
+            pns[attr] = t_objects.DBusProperty(pn, d.name)
+    if cs.abstract_props and pns:
+        # an abstract class declares the properties; the concrete class names the interfaces
+        cs.abs_klass = type('Abs' + cs.name, (base,), pns)
+        base = cs.abs_klass
+    else:
+        ns.update(pns)
     if extra_attrs:
         ns.update(extra_attrs)
     if cs.mixin:
